@@ -371,6 +371,9 @@ func runCheck(prop, tier string, nWorkers int, solverName, only, repo string, bu
 		nWorkers: nWorkers, solverName: solverName, timeoutMs: 30000, covers: map[string]bool{}, nondetInfo: map[string]*NondetInfo{},
 		notes: map[string]bool{}, known: loadKnown(), knownHit: map[string]bool{}}
 	d.cond = sync.NewCond(&d.mu)
+	if ms, err := strconv.Atoi(os.Getenv("VERIF_QTIMEOUT_MS")); err == nil && ms > 0 {
+		d.timeoutMs = ms // testing aid: a tiny per-query timeout exercises the fresh-solver retry path
+	}
 	d.floatConsts = collectFloatConsts(ld)
 	deadline := t0.Add(time.Duration(budget) * time.Second)
 
@@ -478,6 +481,7 @@ func runCheck(prop, tier string, nWorkers int, solverName, only, repo string, bu
 		d.qSat += w.accSat
 		d.qUnsat += w.accUnsat
 		d.qUnknown += w.accUnknown
+		d.qRetried += w.accRetried
 		d.solverTime += w.accElapsed
 	}
 
@@ -553,8 +557,8 @@ func runCheck(prop, tier string, nWorkers int, solverName, only, repo string, bu
 	if evidence {
 		d.writeEvidence(allWorkers, time.Since(t0), verdict, obligations, discharged, 0)
 	}
-	fmt.Fprintf(os.Stderr, "gosym: %s %s: %s; paths=%d instr=%d assertions=%d (symbolic %d) queries=%d (unknown %d) solver=%.1fs load=%.1fs wall=%.1fs\n",
-		prop, tier, verdict, d.states, d.transitions, d.asserts, d.assertsSym, d.queries, d.qUnknown, d.solverTime.Seconds(), loadT.Seconds(), time.Since(t0).Seconds())
+	fmt.Fprintf(os.Stderr, "gosym: %s %s: %s; paths=%d instr=%d assertions=%d (symbolic %d) queries=%d (unknown %d, retried %d) solver=%.1fs load=%.1fs wall=%.1fs\n",
+		prop, tier, verdict, d.states, d.transitions, d.asserts, d.assertsSym, d.queries, d.qUnknown, d.qRetried, d.solverTime.Seconds(), loadT.Seconds(), time.Since(t0).Seconds())
 	if exit == 2 {
 		fmt.Printf("INCONCLUSIVE property=%s reason=%q\n", prop, verdict)
 		for i, m := range d.inconclusive {
